@@ -1,19 +1,19 @@
 #!/bin/sh
 # Build the framework from files on disk only (offline): Lean projects + harness crates.
-set -e
+# Failures here are not fatal: every check rebuilds what it needs and reports its own breakage.
 cd "$(dirname "$0")"
 export CARGO_NET_OFFLINE=true
 for p in lean/*/; do
   [ -f "$p/lakefile.toml" ] || continue
-  (cd "$p" && lake build >/dev/null 2>&1 || (cd "$p" && lake build 2>&1 | tail -20; exit 1))
+  (cd "$p" && lake build >/dev/null 2>&1) || echo "setup: lake build failed in $p (the property's own check will report it)"
   for exe in $(grep -A1 '^\[\[lean_exe\]\]' "$p/lakefile.toml" | grep '^name' | sed 's/.*"\(.*\)"/\1/'); do
-    (cd "$p" && lake build "$exe" >/dev/null 2>&1)
+    (cd "$p" && lake build "$exe" >/dev/null 2>&1) || echo "setup: lake build $exe failed in $p"
   done
 done
 for c in harness/*/; do
   [ -f "$c/Cargo.toml" ] || continue
   name=$(basename "$c")
   [ -f "$c/Cargo.lock" ] || cp /repo/Cargo.lock "$c/Cargo.lock"
-  (cd "$c" && CARGO_TARGET_DIR=/verif/.cache/target/$name cargo build --offline >/dev/null 2>&1 || true)
+  (cd "$c" && CARGO_TARGET_DIR=/verif/.cache/target/$name cargo build --offline >/dev/null 2>&1) || echo "setup: cargo build failed in $c"
 done
 echo setup done
